@@ -17,9 +17,10 @@ from vlib import runner
 ID = "C03"
 LEVEL = "exploration"
 EXHAUSTIVE = False
-EXHAUSTIVE_STREAMS = {'abstract': 'all histories of length <= L over the 40 statement kinds (complete)', 'sql': 'sampled'}
+EXHAUSTIVE_STREAMS = {'abstract': 'all histories of length <= L over the 40 statement kinds (complete)', 'abstract_multi_pair_rename': 'every (rw, rw) prefix x every ordered 2-pair RENAME over 3 tables (complete)', 'sql': 'sampled'}
 RULE = ("abstract stream: ALL histories of length L (L=3 quick, L=4 thorough; plus all of length 1..L-1) over 40 statement "
-        "kinds = 31 read-set x at-most-one-write statements + 3 DROP + 6 RENAME on tables {a,b,c}; sql stream: Hypothesis "
+        "kinds = 31 read-set x at-most-one-write statements + 3 DROP + 6 RENAME on tables {a,b,c}; multi-pair stream: two rw statements "
+        "then every ordered pair of RENAME pairs in one statement; sql stream: Hypothesis "
         "scripts of 2-8 statements over 5 tables rendered to SQL. Non-trivial = at least two statements of the history "
         "mention a common table; distinct = distinct history (abstract: distinct by construction of the enumeration; "
         "sql: distinct rendered script text).")
@@ -98,10 +99,6 @@ def in_claim_domain(hist):
                 prior = [s for s in hist[:k] if mentions(s, t)]
                 if not all(_edge_stmt_for(s, t) for s in prior):
                     return False
-        if st[0] == "renm" and len(st[1]) > 1:
-            names = [t for p in st[1] for t in p]
-            if len(set(names)) != len(names):
-                return False  # chained multi-pair renames: sequential semantics not pinned by the property text
     return True
 
 
@@ -168,9 +165,12 @@ def judge(hist, real, strict_drop=True):
     # x is gone after RENAME x->y unless a later statement mentions x again
     for k, st in enumerate(hist):
         for x, y in rename_pairs(st):
-            if st[0] == "renm" and len(st[1]) > 1 and not in_claim_domain(hist):
-                continue
-            if not any(mentions(s, x) for s in hist[k + 1:]) and x in (set(rS) | set(rT) | set(rI)):
+            later = list(hist[k + 1:])
+            if st[0] == "renm":
+                pairs = rename_pairs(st)
+                j = pairs.index((x, y))
+                later.append(("renm", tuple(pairs[j + 1:])))  # a later pair of the same statement may create x again
+            if not any(mentions(s, x) for s in later) and x in (set(rS) | set(rT) | set(rI)):
                 diffs.setdefault("renamed_table_still_present", []).append(x)
     if diffs:
         diffs["weakly_compared"] = sorted(weak)
@@ -222,6 +222,51 @@ def decode(idx, L):
         idx, d = divmod(idx, 40)
         h.append(KINDS[d])
     return tuple(reversed(h))
+
+
+RW_KINDS = [k for k in KINDS if k[0] == "rw"]
+REN_PAIRS = [(x, y) for x in U for y in U if x != y]
+
+
+def multi_rename_histories(thorough):
+    """every (rw, rw) prefix x every ordered 2-pair RENAME over {a,b,c} (36, chained and repeated names included: the pairs apply
+    left to right) [x every trailing rw statement and every 3-pair RENAME after one rw statement in thorough]"""
+    for p1 in RW_KINDS:
+        for p2 in RW_KINDS:
+            for r1 in REN_PAIRS:
+                for r2 in REN_PAIRS:
+                    yield (p1, p2, ("renm", (r1, r2)))
+    if thorough:
+        for p1 in RW_KINDS:
+            for r1 in REN_PAIRS:
+                for r2 in REN_PAIRS:
+                    for r3 in REN_PAIRS:
+                        yield (p1, ("renm", (r1, r2, r3)))
+                    for p3 in RW_KINDS:
+                        yield (p1, ("renm", (r1, r2)), p3)
+
+
+def _multi_worker(payload):
+    shard, nshards, ctx = payload
+    res = runner.Res()
+    nt = 0
+    for idx, hist in enumerate(multi_rename_histories(not ctx.quick)):
+        if idx % nshards != shard:
+            continue
+        if (idx & 1023) == shard and ctx.out_of_time():
+            res.budget_exhausted = True
+            break
+        res.evals += 1
+        if nontrivial(hist):
+            nt += 1
+            if idx % 4099 == 0:
+                res.samples.append((runner.h8(hist), {"stream": "abstract", "history": hist}))
+        d = judge(hist, real_abstract(hist))
+        if d is not None and len(res.violations) < 3:
+            res.violation("abstract", {"stream": "abstract", "history": hist}, d)
+    res.extra["nt_extra"] = nt
+    res.labels["abstract_multi_pair_rename"] += res.evals
+    return res
 
 
 def _abstract_worker(payload):
@@ -310,9 +355,10 @@ def sql_strategy():
                      unique_by=(lambda p: p[0], lambda p: p[1]))
     chained = lambda ps: len({t for p in ps for t in p}) != 2 * len(ps)  # noqa: E731
     renm_disjoint = pairs.filter(lambda ps: not chained(ps)).map(lambda ps: ("renm", tuple(ps)))
-    renm_chain = pairs.filter(chained).map(lambda ps: ("renm", tuple(ps)))  # finding probe (K-rename-multi)
+    # chained pairs (a name occurs twice: 'a TO tmp, b TO a, tmp TO b' is the mysql idiom for a swap) apply left to right
+    renm_chain = pairs.filter(chained).map(lambda ps: ("renm", tuple(ps)))
     stmt = st.integers(0, 39).flatmap(
-        lambda k: rw if k < 26 else drop if k < 31 else ren if k < 36 else renm_disjoint if k < 39 else renm_chain)
+        lambda k: rw if k < 26 else drop if k < 30 else ren if k < 34 else renm_disjoint if k < 37 else renm_chain)
     return st.tuples(st.lists(st.tuples(stmt, st.integers(0, 5)), min_size=2, max_size=8), st.sampled_from(DIALECTS))
 
 
@@ -329,15 +375,7 @@ def build_sql_case(case):
 
 
 def classify(case, detail):
-    """K-rename-multi: a multi-pair RENAME whose pairs chain (a name occurs twice) is applied in set-iteration order;
-    symptom = NetworkXError 'edge x-x not in graph' (wrong classifications of the named tables are compared weakly anyway)"""
-    hist = _norm_hist(case.get("history", []))
-    if isinstance(detail, dict) and detail.get("what") == "exception while folding" and detail["exc"][0] == "NetworkXError":
-        for st in hist:
-            if st[0] == "renm":
-                names = [t for p in st[1] for t in p]
-                if len(set(names)) != len(names):
-                    return "K-rename-multi@C03"
+    """no open finding (K-rename-multi was repaired: see known_findings.json 'fixed')"""
     return None
 
 
@@ -401,6 +439,7 @@ def run(ctx):
         for lo in range(0, total, step):
             payloads.append((ell, lo, min(total, lo + step), ctx))
     res = runner.merge_all(runner.pmap(_abstract_worker, payloads))
+    res.merge(runner.merge_all(runner.pmap(_multi_worker, [(i, runner.NCPU, ctx) for i in range(runner.NCPU)])))
     n_sql = ctx.n(1600, 40000)
     res.merge(runner.merge_all(runner.pmap(_sql_worker, [(i, n_sql // runner.NCPU, ctx) for i in range(runner.NCPU)])))
     return res
